@@ -26,7 +26,6 @@ const DEFAULT_MIN_CONNECTIONS: u32 = 0;
 const DEFAULT_MAX_CONNECTIONS: u32 = 10;
 
 /// Configuration options for PostgreSQL stores
-#[derive(Debug)]
 pub struct PostgresStoreOptions {
     pub(crate) connect_timeout: Duration,
     pub(crate) idle_timeout: Duration,
@@ -38,6 +37,22 @@ pub struct PostgresStoreOptions {
     pub(crate) name: String,
     pub(crate) username: String,
     pub(crate) schema: Option<String>,
+}
+
+// `uri` and `admin_uri` carry the passwords and are not printed
+impl std::fmt::Debug for PostgresStoreOptions {
+    fn fmt(&self, f: &mut std::fmt::Formatter<'_>) -> std::fmt::Result {
+        f.debug_struct("PostgresStoreOptions")
+            .field("connect_timeout", &self.connect_timeout)
+            .field("idle_timeout", &self.idle_timeout)
+            .field("max_connections", &self.max_connections)
+            .field("min_connections", &self.min_connections)
+            .field("host", &self.host)
+            .field("name", &self.name)
+            .field("username", &self.username)
+            .field("schema", &self.schema)
+            .finish_non_exhaustive()
+    }
 }
 
 impl PostgresStoreOptions {
